@@ -121,6 +121,7 @@ type Interp struct {
 	keyCount     int
 	pkgInited    map[*ssa.Package]bool
 	atlas        map[string]*atlasEntry
+	CrossSink    func(script, expect string)
 }
 
 func NewInterp(prog *ssa.Program, ctx *smt.Ctx, sol *smt.Solver) *Interp {
